@@ -883,4 +883,127 @@ theorem ClusterMove.shapeOk {fr : SkOp → Bool} {b a : Config} (h : ClusterMove
     obtain ⟨ob, hob, hok⟩ := key h.ops oa hoa
     rw [hok.vars]; exact hn ob hob
 
+/-! ### tags: component flips followed by the canonical tag (`Diagonal` iff inputs = outputs)
+
+`flipConfig` leaves the derived tag field alone; the code recomputes it (`edit_in_out`). On strings with
+canonical tags (`TagCanon`, what the sampler maintains) the code's result is `flipConfigT`. -/
+
+def canonConfig (c : Config) : Config := { c with slots := canonSlots c.slots }
+
+def flipConfigT (D : Nat → Bool) (c : Config) : Config := canonConfig (flipConfig D c)
+
+/-- component flip with the tag rule applied -/
+def flipComponentT (sk : Skel) (r : Nat) (c : Config) : Config := canonConfig (flipComponent sk r c)
+
+theorem canonSlots_of_tagCanon : ∀ (s : Slots), TagCanon s → canonSlots s = s
+  | [], _ => rfl
+  | none :: t, h => by
+    have := canonSlots_of_tagCanon t (fun o ho => h o (by simpa [opsOf] using ho))
+    simp only [canonSlots] at this
+    simp only [canonSlots, List.map_cons, Option.map_none, this]
+  | some o :: t, h => by
+    have := canonSlots_of_tagCanon t (fun o' ho' => h o' (by simp [opsOf, ho']))
+    simp only [canonSlots] at this
+    have ho := h o (by simp [opsOf])
+    simp only [canonSlots, List.map_cons, Option.map_some, this, ← ho]
+
+theorem tagCanon_canonSlots : ∀ (s : Slots), TagCanon (canonSlots s)
+  | [] => by intro o ho; simp [canonSlots, opsOf] at ho
+  | none :: t => by
+    intro o ho
+    exact tagCanon_canonSlots t o (by simpa [canonSlots, opsOf] using ho)
+  | some o1 :: t => by
+    intro o ho
+    simp only [canonSlots, List.map_cons, Option.map_some, opsOf, List.mem_cons] at ho
+    rcases ho with rfl | ho
+    · rfl
+    · exact tagCanon_canonSlots t o (by simpa [canonSlots] using ho)
+
+theorem flipLegs_canonSlots (D : Nat → Bool) : ∀ (s : Slots) (off : Nat),
+    canonSlots (flipLegs D off (canonSlots s)) = canonSlots (flipLegs D off s)
+  | [], _ => rfl
+  | none :: t, off => by
+    have := flipLegs_canonSlots D t off
+    simp only [canonSlots] at this
+    simp only [canonSlots, flipLegs, List.map_cons, Option.map_none, this]
+  | some o :: t, off => by
+    have := flipLegs_canonSlots D t (off + 2 * o.vars.length)
+    simp only [canonSlots] at this
+    simp only [canonSlots, flipLegs, List.map_cons, Option.map_some, this]
+
+theorem legMaskSlots_canonSlots (D : Nat → Bool) : ∀ (s : Slots) (off : Nat),
+    legMaskSlots D off (canonSlots s) = legMaskSlots D off s
+  | [], _ => rfl
+  | none :: t, off => by
+    have := legMaskSlots_canonSlots D t off
+    simp only [canonSlots] at this
+    simp only [canonSlots, legMaskSlots, List.map_cons, Option.map_none, this]
+  | some o :: t, off => by
+    have := legMaskSlots_canonSlots D t (off + 2 * o.vars.length)
+    simp only [canonSlots] at this
+    simp only [canonSlots, legMaskSlots, List.map_cons, Option.map_some, this]
+
+theorem flipConfigT_canon (D : Nat → Bool) (x : Config) :
+    canonConfig (flipConfig D (canonConfig x)) = canonConfig (flipConfig D x) := by
+  simp only [canonConfig, flipConfig, legMaskSlots_canonSlots, flipLegs_canonSlots]
+
+theorem flipConfigT_involutive (D : Nat → Bool) (c : Config) (h : ShapedSlots c.slots) (ht : TagCanon c.slots) :
+    flipConfigT D (flipConfigT D c) = c := by
+  unfold flipConfigT
+  rw [flipConfigT_canon, flipConfig_involutive D c h]
+  simp only [canonConfig, canonSlots_of_tagCanon c.slots ht]
+
+theorem flipConfigT_comm (D1 D2 : Nat → Bool) (c : Config) :
+    flipConfigT D1 (flipConfigT D2 c) = flipConfigT D2 (flipConfigT D1 c) := by
+  unfold flipConfigT
+  rw [flipConfigT_canon, flipConfigT_canon, flipConfig_comm]
+
+theorem canon_pairAll {fr : SkOp → Bool} : ∀ {sb sa : Slots}, PairAll (OpOk fr) sb sa →
+    PairAll (OpOk fr) sb (canonSlots sa) ∧ maskSlots sb (canonSlots sa) = maskSlots sb sa
+  | [], [], _ => ⟨trivial, rfl⟩
+  | [], _ :: _, h' => by simp [PairAll] at h'
+  | none :: _, [], h' => by simp [PairAll] at h'
+  | some _ :: _, [], h' => by simp [PairAll] at h'
+  | none :: tb, none :: ta, h' => by
+    simp only [PairAll] at h'
+    obtain ⟨i1, i2⟩ := canon_pairAll h'
+    simp only [canonSlots] at i1 i2
+    simp only [canonSlots, List.map_cons, Option.map_none, PairAll, maskSlots, i2]
+    exact ⟨i1, trivial⟩
+  | none :: tb, some _ :: ta, h' => by simp [PairAll] at h'
+  | some _ :: tb, none :: ta, h' => by simp [PairAll] at h'
+  | some ob :: tb, some oa :: ta, h' => by
+    simp only [PairAll] at h'
+    obtain ⟨i1, i2⟩ := canon_pairAll h'.2
+    simp only [canonSlots] at i1 i2
+    simp only [canonSlots, List.map_cons, Option.map_some, PairAll, maskSlots, i2]
+    have h1 := h'.1
+    exact ⟨⟨⟨h1.vars, h1.bond, h1.const, h1.insB, h1.outsB, h1.insA, h1.outsA, h1.closed, h1.frozen⟩, i1⟩, rfl⟩
+
+/-- recomputing the tags of the result keeps a cluster move a cluster move -/
+theorem clusterMove_canon {fr : SkOp → Bool} {c a : Config} (h : ClusterMove fr c a) :
+    ClusterMove fr c (canonConfig a) := by
+  obtain ⟨i1, i2⟩ := canon_pairAll h.ops
+  refine ⟨i1, h.stateLen, ?_, h.idle⟩
+  have : mask c (canonConfig a) = mask c a := by simp only [mask, canonConfig, i2]
+  rw [this]; exact h.linkClosed
+
+theorem flipComponentT_clusterMove (fr : SkOp → Bool) (c : Config) (r : Nat) (hshape : ShapeOk c)
+    (hn : NodupVars c.slots) (hfree : ComponentFree fr c.slots r) :
+    ClusterMove fr c (flipComponentT (skeleton c.slots) r c) :=
+  clusterMove_canon (flipComponent_clusterMove fr c r hshape hn hfree)
+
+theorem flipComponentT_involutive (sk : Skel) (r : Nat) (c : Config) (h : ShapedSlots c.slots)
+    (ht : TagCanon c.slots) : flipComponentT sk r (flipComponentT sk r c) = c := by
+  unfold flipComponentT flipComponent
+  exact flipConfigT_involutive _ c h ht
+
+theorem flipComponentT_comm (sk : Skel) (r1 r2 : Nat) (c : Config) :
+    flipComponentT sk r1 (flipComponentT sk r2 c) = flipComponentT sk r2 (flipComponentT sk r1 c) := by
+  unfold flipComponentT flipComponent
+  exact flipConfigT_comm _ _ c
+
+theorem flipComponentT_tagCanon (sk : Skel) (r : Nat) (c : Config) : TagCanon (flipComponentT sk r c).slots :=
+  tagCanon_canonSlots _
+
 end Qmc
